@@ -155,7 +155,7 @@ func checkDefs() map[string]*CheckDef {
 			Runs: func(tier string) []RunSpec {
 				return []RunSpec{
 					{Name: "run", Pkg: app, Entry: "VerifC13", Params: map[string]int{"N": tierPick(tier, 3, 4), "FAULTS": 1}, MustCover: []string{"all runners ok", "runner failed", "start-up fault"}},
-					{Name: "integration", Pkg: app, Entry: "VerifAppIntegration", Params: map[string]int{"N": tierPick(tier, 3, 4), "R": 2}, MustCover: []string{"start ok", "component init fails"}, Opts: ExecOpts{Sched: "seq", PermuteRange: tier == "thorough"}},
+					{Name: "integration", Pkg: app, Entry: "VerifAppIntegration", Params: map[string]int{"N": tierPick(tier, 3, 4), "R": 2}, MustCover: []string{"start ok", "component init fails"}, Opts: ExecOpts{Sched: "seq", PermuteRange: tier == "thorough", PermuteCoarse: true}},
 				}
 			},
 			LevelText: "Bounded symbolic model checking of the real App.run/initConfiguration/initFactory/refresh/callRunners with a logging stub factory: for every multiset of up to N runners (three classes, unconstrained 64-bit Order), every choice of failing runner and every failing start-up phase: no runner before refresh finished, each at most once and in the ordering contract's sequence, exactly once if none fails, nothing after a failing runner, run returns an error exactly when something failed.",
@@ -169,7 +169,7 @@ func checkDefs() map[string]*CheckDef {
 				}
 			},
 			LevelText: "Bounded symbolic model checking of the real App.Close with engine goroutines, WaitGroup and channel models under the adversarial-join schedule (spawned goroutines run only when the parent blocks or returns, in every order; the parent resumes as early as possible): at the instant Close returns every closer ran exactly once and returned, for 0..N closers and every subset that fails.",
-			LevelNote: "Bound N closers (quick 5, thorough 6) under every join schedule, plus 16/17/18/33 closers under one fixed sequential schedule (batch and pool boundaries). Preemption inside a closer body is not explored (closer bodies share nothing but the WaitGroup). select is unsupported (inconclusive).",
+			LevelNote: "Bound N closers (quick 5, thorough 6) under every join schedule, plus 16/17/18/33 closers under one fixed sequential schedule (batch and pool boundaries). Preemption inside a closer body is not explored (closer bodies share nothing but the WaitGroup). select is unsupported (inconclusive). Honest note: the quantified variables here (closer count, failing subset, schedule) are all explored by forking; the solver only decides feasibility of the few data-dependent branches.",
 			Technique: techDefault + "; goroutine schedules as symbolic choices", DesignRef: "DESIGN.md §3 C14"},
 		&CheckDef{ID: "C15", Title: "Configuration sources",
 			Runs: func(tier string) []RunSpec {
@@ -218,6 +218,7 @@ func checkDefs() map[string]*CheckDef {
 					{Name: "register", Pkg: fac, Entry: "VerifC07Register", Params: map[string]int{"K": 3, "L": tierPick(tier, 1, 2)}, MustCover: []string{"duplicate rejected"}, Opts: ExecOpts{PermuteRange: true}},
 					rh("by-name", "VerifC07", map[string]int{"K": tierPick(tier, 2, 3)}, "named component found", "named component has an incompatible type", "optional point, no such component", "name given through a placeholder"),
 					rh("peers-of-the-holders-type", "VerifC07Peers", nil, "peer of the holder's own type"),
+					rh("symbolic-names", "VerifC07Symbolic", nil, "first name requested", "second name requested", "no such name"),
 				}
 			},
 			LevelText: "Bounded symbolic model checking of the by-name branch of dependencyAware, GetMetaByName, the real SingletonRegistry.RegisterSingleton/GetComponentName (names as symbolic bytes), furtherMatching and Inject: the field receives exactly the component registered under the requested name, an absent or incompatible name is an error for a required point and leaves an optional point untouched (never a panic), two distinct components are never both retrievable under one name.",
@@ -309,7 +310,7 @@ func checkDefs() map[string]*CheckDef {
 				}
 			},
 			LevelText: "Bounded symbolic model checking with engine goroutines: (a) sync2.Map.{Load,Store,LoadOrStore,LoadOrStoreFn,Delete} and ConcurrentSets.{Put,Exists,Remove} from two goroutines under every interleaving of their visible operations (bounded context switches): two load-or-stores never both win, every history is linearizable (checker written in the harness); (b) the real applyDefinitionRegistryPostProcessors (real tag scanner + scanners failing on solver-chosen components) and App.Close under the adversarial-join schedule with a happens-before race detector (vector clocks over spawn, WaitGroup, Mutex, sync.Map entries, atomics, channels): no two unordered conflicting accesses to one heap cell.",
-			LevelNote: "Bounds: 2 goroutines x 1 (2) operations over 2 (1) keys, <=2-4 preemptive context switches; <=3 (4) scanned components. sync.Map, sync.Mutex, sync.WaitGroup and sync/atomic are trusted models (each method one atomic step); memory model = sequential consistency + happens-before bookkeeping; preemption inside user callbacks, the stdlib log.Logger (one atomic step), viper and Range concurrent with writers are outside; go-kid/ioc's own syslog package IS executed from SSA in the two race runs (its per-prefix logger instances are shared by the goroutines). Counterexamples are replayed natively (go test -race / a barrier inside the LoadOrStoreFn callback).",
+			LevelNote: "Bounds: 2 goroutines x 1 (2) operations over 2 (1) keys, <=2-4 preemptive context switches; <=3 (4) scanned components. sync.Map, sync.Mutex, sync.WaitGroup and sync/atomic are trusted models (each method one atomic step); memory model = sequential consistency + happens-before bookkeeping; preemption inside user callbacks, the stdlib log.Logger (one atomic step), viper and Range concurrent with writers are outside; go-kid/ioc's own syslog package IS executed from SSA in the two race runs (its per-prefix logger instances are shared by the goroutines). Counterexamples are replayed natively (go test -race / a barrier inside the LoadOrStoreFn callback). Honest note: operations, keys and schedules are explored by forking (explicit-state exploration inside the symbolic executor); the SMT solver has almost nothing to decide in these runs.",
 			Technique: techDefault + "; goroutine schedules as symbolic choices; happens-before race detection in the executor", DesignRef: "DESIGN.md §3 C20"},
 	)
 	// the integration graph run (real App.initiate + run) is cheap and serves several properties
@@ -321,7 +322,14 @@ func checkDefs() map[string]*CheckDef {
 		}
 		return r
 	}
+	valuesRun := RunSpec{Name: "integration-values", Pkg: app, Entry: "VerifAppValues", Params: map[string]int{"N": 3}, MustCover: []string{"values bound end to end", "constraint violated"}, Opts: ExecOpts{Sched: "seq", Termination: true, MaxSteps: 3000000}}
 	for _, d := range defs {
+		switch d.ID {
+		case "C16", "C17", "C18":
+			inner := d.Runs
+			d.Runs = func(tier string) []RunSpec { return append(inner(tier), valuesRun) }
+			d.LevelNote += " An additional integration run binds a symbolic string through value / prop / prefix / default / optional / expression / validate tags end to end through the real App.initiate+run (all nine real processors in their real order)."
+		}
 		switch d.ID {
 		case "C01", "C02", "C05", "C06", "C09":
 			inner := d.Runs
